@@ -223,6 +223,14 @@ def run_faults(cfg, out, props=None, tag="C05", profiles_pool=None, extra=None):
                 w.handler.on.setdefault("message", []).append(raiser)
                 run.c.inc("worlds_with_raising_handler")
             c.updates_per_step = r.choice([1, 2, 2])
+            # in a third of the worlds two more clients share the server (and the storm) with the main one
+            others = []
+            if r.random() < 0.33:
+                for _k in range(2):
+                    o = w.connect_client()
+                    o.updates_per_step = c.updates_per_step
+                    others.append(o)
+                run.c.inc("worlds_with_three_clients")
             run.report.context = {"case_key": key, "mtu": mtu, "client_updates_per_tick": c.updates_per_step}
             P = run.C.Packet
             # --- targeted: for a few messages, lose the k-th carrying datagram and/or the acks
@@ -380,15 +388,15 @@ def run_faults(cfg, out, props=None, tag="C05", profiles_pool=None, extra=None):
             pool = profiles_pool or ["lossy", "dup", "reorder", "slow", "acks-lost", "hostile", "very-slow"]
             profiles = [r.choice(pool) for _ in range(r.randint(1, 4))]
             stop_extra = extra(run, r, c) if extra else None
-            T.storm(run, r, [c], ticks=r.randint(120, 500), rate=r.choice([0.05, 0.15, 0.4]), profile_seq=profiles,
+            T.storm(run, r, [c] + others, ticks=r.randint(120, 500), rate=r.choice([0.05, 0.15, 0.4]), profile_seq=profiles,
                     retry_modes=(-1, -1, 0, 1), fills=("random", "zeros", "text"))
             if stop_extra:
                 stop_extra()                 # the adversary rests while the network heals
             w.net.heal(0.004)
-            healed = run.settle([c], min_ticks=90)
+            healed = run.settle([c] + others, min_ticks=90)
             if healed is not None and age_session(run, c, r):
-                healed = run.settle([c], min_ticks=60)
-            T.final_checks(run, [c], healed)
+                healed = run.settle([c] + others, min_ticks=60)
+            T.final_checks(run, [c] + others, healed)
             # one callback function shared by k unretried sends of one tick must be invoked k times
             if healed is not None and run.open(c):
                 for k, calls, side in getattr(run, "shared_batches", []):
@@ -401,13 +409,47 @@ def run_faults(cfg, out, props=None, tag="C05", profiles_pool=None, extra=None):
             #     their way (their acks were lost); it keeps calling update()/getMessages() - nothing arrives a second time
             if run.open(c):
                 sc_ = run.sconn(c)
-                w.net.set(c2s=L.Policy(outage=True), s2c=L.Policy(delay=(0.004, 0.004)))
+                w.net.heal(0.004)
+                cut_main = lambda direction, addr, d, info: "drop" if (direction == "c2s" and addr == c.addr) else None
+                w.net.filters.append(cut_main)        # (only the main client's uplink is cut: bystanders stay connected)
                 for _k in range(3):
                     run.app.send(sc_, "server", r.choice([12, 60, P.MAX_PAYLOAD_SIZE + 20]), r.choice([1, -1]), with_cb=False)
                 w.step(4)
                 c.udp.disconnect()
                 run.c.inc("client_disconnects_with_retransmissions_in_flight")
                 w.step(int(1.6 / w.dt))
+                # --- a second session: the application calls connect() again on the same UdpClient, from the same address, once
+                #     the server has let go of the old connection; a few messages of every kind go both ways
+                w.net.heal(0.004)
+                ct0 = w.ctxt.connection_timeout
+                w.ctxt.connection_timeout = 1.0          # (the client's DISCONNECT was lost in the outage: the server times it out)
+                w.run_until(lambda ww: c.addr not in ww.ctxt.connections and c.addr not in ww.ctxt.temp_connections, int(4.0 / w.dt))
+                w.ctxt.connection_timeout = ct0
+                if c.addr not in w.ctxt.connections and c.addr not in w.ctxt.temp_connections:
+                    c.on_connected[:] = []
+                    c.connect()
+                    if w.run_until(lambda ww: run.open(c), 300):
+                        run.c.inc("second_sessions")
+                        recs = []
+                        for _k in range(3):
+                            for side in ("client", "server"):
+                                ep = c if side == "client" else run.sconn(c)
+                                recs.append(run.app.send(ep, side, r.choice([0, 13, 300, P.MAX_PAYLOAD_SIZE, P.MAX_PAYLOAD_SIZE + 40, 3 * P.MAX_FRAGMENT_SIZE]), -1,
+                                                         api=r.choice(["send", "send_guaranteed"]), with_cb=True))
+                            w.step(3)
+                        w.run_until(lambda ww: all(rc["cb"] for rc in recs), int(6.0 / w.dt))
+                        w.step(5)
+                        for rc in recs:
+                            got = rc.get("delivered", 0) if rc.get("small") else len(run.app.deliveries.get(rc["id"], []))
+                            if got != 1 and run.open(c):
+                                run.report("C05" if got == 0 else "C04", "second-session-guaranteed-undelivered" if got == 0 else "delivered-twice",
+                                           "second session on the same UdpClient and address: a guaranteed %d-byte message from the %s was delivered %d times over a clean link" % (
+                                               rc["len"], rc["side"], got))
+                            elif [v for t, v, ph in rc["cb"]] != [True] and run.open(c) and not conf:
+                                # (with a keep-alive interval above the message timeout an idle peer acks too late by configuration)
+                                run.report("C07", "second-session-callback", "second session: callback history %r of a delivered guaranteed message" % ([v for t, v, ph in rc["cb"]],))
+                            else:
+                                run.c.inc("second_session_messages_ok")
             total += run.c.get("app_sends", 0)
             out["counters"].inc("worlds")
             out["counters"].inc("void_runs" if run.void else "runs_connection_open")
@@ -439,7 +481,8 @@ def finish(tier, seed, results):
                          "net_duplicated_c2s", "net_reordered_s2c", "burst_after_loss_scenarios", "best_effort_fragment_scenarios",
                          "worlds_keep_alive_longer_than_message_timeout", "sends_from_connect_callback", "sends_from_send_callback",
                          "worlds_with_counters_near_wrap", "shared_callback_batches", "aged_sessions_fragment_ids_reused",
-                         "gap_scenarios_over_32_datagrams", "reordered_ack_path_streams", "handler_raised_in_message", "client_disconnects_with_retransmissions_in_flight"], inconclusive)
+                         "gap_scenarios_over_32_datagrams", "reordered_ack_path_streams", "handler_raised_in_message", "client_disconnects_with_retransmissions_in_flight",
+                         "second_session_messages_ok", "worlds_with_three_clients"], inconclusive)
     cov = {
         "evaluations": m["evaluations"],
         "distinct_nontrivial": m["distinct_nontrivial"],
